@@ -489,7 +489,17 @@ class Interp:
             self.meta[ev['id']] = {'at': i, 'c': ev.get('c', 0), 'fn': ev['fn'], 'kw': sorted(ev.get('k', {}))}
         self.history.append((i, ev.get('c', 0), ev['fn'], out.brief(self.dig)))
         if self.hooks is not None:
-            self.hooks.after(self, i, ev, out)
+            try:
+                self.hooks.after(self, i, ev, out)
+            except (HarnessError, MemoryError):
+                raise
+            except Exception as e:
+                # an oracle that cannot even be evaluated on what lentil returned (wrong type, shape, object array ...):
+                # reported like any violation, so that it is minimised and must replay, instead of breaking the check
+                import traceback
+                tb = traceback.extract_tb(e.__traceback__)[-1]
+                self.violate(getattr(self.hooks, 'prefix', 'LSIM') + '.oracle_error', {'fn': ev['fn'], 'exc': type(e).__name__},
+                             'the oracle could not be evaluated after %s: %r (%s:%d)' % (ev['fn'], e, tb.filename.split('/')[-1], tb.lineno), i)
         return out
 
     def do_env(self, i, ev):
